@@ -14,6 +14,7 @@ mod gen_fail;
 mod gen_lang;
 mod gen_scope;
 mod gen_sym;
+mod gen_tail;
 mod rng;
 
 fn main() {
@@ -52,6 +53,7 @@ fn eval_file(args: &[String]) -> Result<(), String> {
             sess::Outcome::Err(e) => format!("ERROR {:?}", e),
             sess::Outcome::Panic(m) => format!("PANIC {}", m),
             sess::Outcome::Timeout => "TIMEOUT".to_string(),
+            sess::Outcome::StackLimit => "STACKLIMIT".to_string(),
         };
         println!("{:#}  =>  {}   [sp={}]", c, d, s.vm.verif_stack().get_sp());
     }
